@@ -99,6 +99,10 @@ def make_pool(darsia, rng):
         P["U8a"] = darsia.ScalarImage(rs.randint(0, 100, size=(H, W)).astype(np.uint8), dimensions=[0.5 * H, 0.25 * W])
         P["U8b"] = darsia.ScalarImage(rs.randint(0, 100, size=(H, W)).astype(np.uint8), dimensions=[0.5 * H, 0.25 * W])
         P["F32"] = darsia.ScalarImage(rs.rand(H, W).astype(np.float32), dimensions=[0.5 * H, 0.25 * W])
+        wx = np.full((H, W), 1e6)
+        wx.ravel()[::3] = 1e-6
+        wx.ravel()[1::5] = 0.0 + 1e-12
+        P["Wextreme"] = darsia.ScalarImage(wx, dimensions=[0.5 * H, 0.25 * W], name="weight-extreme")
         P["Fsigned"] = darsia.ScalarImage(rs.rand(H, W) * 3.0 - 1.5, dimensions=[0.5 * H, 0.25 * W])
         P["Fsum"] = darsia.OpticalImage((rs.rand(H, W, 3) + rs.rand(H, W, 3)).astype(np.float32), color_space="RGB", dimensions=[0.5 * H, 0.25 * W])
     # regions of interest the caller keeps (and uses again): voxel / coordinate corner arrays inside the image and sticking out
@@ -218,6 +222,9 @@ def registry(darsia):
     add("emd", lambda P, r: darsia.EMD()(P["M1"], P["M2"]))
     add("wasserstein_newton", lambda P, r: darsia.wasserstein_distance(P["M1"], P["M2"], method="newton", options={"num_iter": 3}))
     add("wasserstein_bregman", lambda P, r: darsia.wasserstein_distance(P["M1"], P["M2"], method="bregman", options={"num_iter": 3}))
+    # a caller-owned weight image of extreme contrast (1e-6 and 1e-12 next to 1e6)
+    add("wasserstein_newton_weight_extreme", lambda P, r: darsia.wasserstein_distance(P["Ma"], P["Mb"], method="newton", weight=P["Wextreme"], options={"num_iter": 2}))
+    add("wasserstein_bregman_weight_extreme", lambda P, r: darsia.wasserstein_distance(P["Ma"], P["Mb"], method="bregman", weight=P["Wextreme"], options={"num_iter": 2}))
     add("wasserstein_caller_options", lambda P, r: darsia.wasserstein_distance(P["Ma"], P["Mb"], method="newton", options=P["optsW"]))
     add("wasserstein_caller_options_bregman", lambda P, r: darsia.wasserstein_distance(P["Ma"], P["Mb"], method="bregman", options=P["optsW"]))
     add("emd_distinct", lambda P, r: darsia.EMD()(P["Ma"], P["Mb"]))
